@@ -32,7 +32,7 @@ def run(ctx):
     ctx.rule = ("R: every document within the bound x depth x slug function (expected slugs and link owners exported by TLC). "
                 "V: random documents of 1-9 items with Unicode/markup titles. non-trivial = at least two anchored headings")
     ctx.assumptions += ["docutils front end; headings at document level", "title text = text + code_inline children of markdown-it's inline token"]
-    recs = A.t_leg(ctx, quick)
+    recs = A.t_leg(ctx, quick, focus="C10")
     for rec in recs:
         rec["cli"] = True
     outs = pmap(A.replay_case, recs, chunksize=64)
